@@ -485,7 +485,6 @@ class ConnectedRemotePeer(RemotePeer):
             # apply first: a block that cannot be applied (e.g. it spends a missing output) raises here, and must not
             # stay behind in the block store's write buffer.
             coinstate_changed = coinstate_prior.add_block_no_validation(block)
-            self.local_peer.disk_interface.save_block(block)
 
             if header.in_response_to == 0 or block.height % IBD_VALIDATION_SKIP == 0:
                 # Validation is very slow, and we don't have to validate every block in a blockchain, so
@@ -506,8 +505,12 @@ class ConnectedRemotePeer(RemotePeer):
                     return
 
                 self.local_peer.chain_manager.set_coinstate(coinstate_changed, validated=True)
+                # buffer only now: the miner's thread flushes the same buffer, and must not write a block that is still
+                # being validated (and may be rejected) to disk.
+                self.local_peer.disk_interface.save_block(block)
                 self.local_peer.disk_interface.flush_blocks()
             else:
+                self.local_peer.disk_interface.save_block(block)
                 self.local_peer.chain_manager.set_coinstate(coinstate_changed, validated=False)
 
             if block == coinstate_changed.head() and header.in_response_to == 0:
